@@ -1,15 +1,33 @@
-"""setup_cmd: build every harness package once from files on disk (offline)."""
+"""setup_cmd: build the harness binaries of every registered check once from files on disk (offline)."""
 import os, sys
 import driver
+
+EXTRA_BINS = {"C15": [("vh-pure", "c15a")]}
+PLAIN = {"C09", "C16"}
 
 
 def main():
     driver.ensure_lockfile()
-    pkgs = ["vh-pure", "vh-tx", "vh-wallet"]
+    ready = open(os.path.join(driver.VERIF, "lib", "ready.txt")).read().split()
+    by_pkg = {}
+    plain = {}
+    for pid in ready:
+        spec = driver.load_spec(pid).SPEC
+        by_pkg.setdefault(spec["package"], set()).add(spec["bin"])
+        for pkg, b in EXTRA_BINS.get(pid, []):
+            by_pkg.setdefault(pkg, set()).add(b)
+        if pid in PLAIN:
+            plain.setdefault(spec["package"], set()).add(spec["bin"])
     rc = 0
-    for p in pkgs:
+    for pkg, bins in sorted(by_pkg.items()):
         try:
-            driver.cargo_build(p)
+            driver.cargo_build(pkg, sorted(bins))
+        except driver.BuildError as e:
+            print(e)
+            rc = 1
+    for pkg, bins in sorted(plain.items()):
+        try:
+            driver.cargo_build(pkg, sorted(bins), profile="plain")
         except driver.BuildError as e:
             print(e)
             rc = 1
